@@ -21,6 +21,7 @@ type Opts struct {
 	Audio    bool // attach sample channels
 	NoSerial bool // no serial writer configured
 	ChanCap  int
+	DebugLCD bool // build the PPU in its debug configuration (Config.DebugLCD)
 }
 
 // M is one emulated machine.
@@ -55,7 +56,7 @@ func New(rom []byte, o Opts) *M {
 	} else {
 		m.A = audio.New(nil, nil)
 	}
-	m.P = ppu.New(m.I, m.OAM, false)
+	m.P = ppu.New(m.I, m.OAM, o.DebugLCD)
 	if o.NoSerial {
 		m.S = serial.New(nil)
 	} else {
